@@ -1,4 +1,4 @@
-(* C12 -- witnesses for the two places where the pinned code violates the property (faithful model). *)
+(* C12 -- witness for the place where the pinned code violates the property (faithful model). *)
 From Coq Require Import List Arith ZArith NArith Bool.
 Import ListNotations.
 Require Import FV.C12.Model.
@@ -24,9 +24,6 @@ Proof.
   - intro W. vm_compute. reflexivity.
 Qed.
 
-(* 2. The node validates a written array against the previous value of the parameter and thereby cuts it to
-      the previous length (frappy/protocol/dispatcher.py:165 + ArrayOf.validate in frappy/datatypes.py):
-      the driver does not receive what the caller passed. *)
-Theorem C12_refuted_array_write_truncated :
-  exists (prev v : list nat), prev <> [] /\ array_validate prev v <> v.
-Proof. exists [0], [1; 2]. split; [discriminate|]. vm_compute. discriminate. Qed.
+(* (A second witness, the node cutting a written array to the length of the previous value, was proved here until
+   the repository fixed ArrayOf.validate in commit 672d284; the model follows the code, see Model.array_validate and
+   Properties.C12_e2e_array_exact.) *)
